@@ -153,6 +153,7 @@ PROPS = {
         "kind": "c16",
         "module": "Props.C16",
         "namespace": "Jl.C16",
+        "extra_theorem_files": [("Proofs.JsonAccept", "Jl.JsonAcc"), ("Proofs.JsonLexical", "Jl.JsonLex")],
         "rule": ("~90 hand-written texts (every rejection class named by the property, truncations, trailing content, comments, BOM, NUL, "
                  "vertical tab, form feed, NBSP, 70 KB string) and, per random valid object: the object, a truncation at a random offset, a "
                  "1-3 byte mutation (insert / delete / replace from the structural alphabet plus control and non-UTF-8 bytes), trailing "
@@ -168,6 +169,7 @@ PROPS = {
         "kind": "c07,scan",
         "module": "Props.C07",
         "namespace": "Jl.C07",
+        "extra_theorem_files": [("Proofs.Scanner", "Jl.Scanner"), ("Proofs.Stream", "Jl.Stream")],
         "rule": ("streams of 0-7 lines drawn from valid objects, blank lines, invalid JSON, non-object values, lines rejected by the template "
                  "and trailing-content lines, with LF / CRLF / missing final newline, delivered by readers returning 1-byte, 3-, 7-byte, "
                  "mixed-with-empty-reads, 64-, 1000-byte and whole-buffer chunks, under the default and the tolerant processor; line "
@@ -183,6 +185,7 @@ PROPS = {
         "kind": "c08",
         "module": "Props.C08",
         "namespace": "Jl.C08",
+        "extra_theorem_files": [("Proofs.Stream", "Jl.Stream")],
         "rule": ("for each of 5 streams (<= 4 lines; LF/CRLF/blank/rejected lines; with and without final newline; empty): the reader failing "
                  "at EVERY byte offset k (as (0,err) after k bytes, as (k,err) with the data, and after 1-byte reads) and the writer failing "
                  "at EVERY write index j (plain failure and short write), each under the default, tolerant and fail-at-call-1 processors; "
@@ -242,6 +245,7 @@ PROPS = {
         "kind": "c15",
         "module": "Props.C15",
         "namespace": "Jl.C15",
+        "extra_theorem_files": [("Proofs.Alias", "Jl.Alias")],
         "rule": ("600 (thorough: 20000) interleavings of 2-40 operations — CreateRowEmpty, CreateRow from map / slice / JSON text / an existing "
                  "row, UnmarshalJSON into a live row (accepted, rejected by the template, syntactically invalid, duplicate keys), Set and "
                  "ImportAtKey on a live row (declared, undeclared, empty keys; convertible and unconvertible values), Export of a live row "
@@ -271,5 +275,35 @@ PROPS = {
         "trusted_base": [KERNEL, EXTRACT, CORR, "lean/Model/Time.lean: port of package time for the two layouts (validated against package time incl. the general parser's leniencies)",
                          "the tz database: parameter Ext.zoneOffset (arbitrary function in the theorems)"],
         "assumptions": ["offsets are whole minutes and |offset| < 24 h (true of the zones in scope after 1970); years 0..9999"],
+    },
+    "C13": {
+        "kind": "c13",
+        "module": "Props.C13",
+        "namespace": "Jl.C13",
+        "rule": ("every pairing of 8 formats x (18 raw types + none) — the ~95 of the lossless table AND the pairings outside it (to confirm the "
+                 "table is tight) — x boundary and random values of the raw type (integers: bounds, +-1, powers of two; floats: +-0, "
+                 "subnormals, extremes, 2^53+1, NaN/Inf; strings: valid UTF-8 incl. escapes-needing characters, look-alikes, and ill-formed "
+                 "bytes; byte slices; times: years 0000, 0001, 9999, 10000, leap day, offsets, nanoseconds; json.Number: valid and invalid "
+                 "literals), through CreateRow -> MarshalJSON -> CreateRowEmpty -> UnmarshalJSON -> Get and through Exporter -> Importer "
+                 "(the two routes must agree). Judged for pairings in Tables.lossless on values in Tables.inDomain: written, read back, "
+                 "equal value and Go type (times as instants at 1 s). distinct = distinct (format, type, value)"),
+        "trusted_base": [KERNEL, EXTRACT, CORR, "lean/Model/Tables.lean: the lossless table and value domains of DESIGN.md §8 (specification)",
+                         "lean/Model/Value.lean, Template.lean, RowPrint.lean (hand-written; byte-exact correspondence)"],
+        "assumptions": ["floats, times and strings: validated by the oracle on every case, not yet lifted to theorems (floats depend on strconv: Ext)"],
+    },
+    "C05": {
+        "kind": "c05",
+        "module": "Props.C05",
+        "namespace": "Jl.C05",
+        "rule": ("under process zones UTC, +05:30, -03:00, Europe/Paris, America/New_York: output templates of 1-5 columns whose descriptors are "
+                 "drawn from the self-readable table (all 9 formats, raw types incl. none; hidden included), input templates equal to the "
+                 "output template or with independent formats / raw types / auto, input lines with values chosen to be mostly accepted "
+                 "(44% accepted) plus undeclared keys; the emitted line is fed back through (to, to). Judged: second pass accepted and "
+                 "byte-identical; deviations are attributed by the model (a cast swallowed by NewValue on some output column -> "
+                 "swallowed-cast; +24:60 offsets; ill-formed UTF-8 escapes) and anything unattributed is a violation. distinct = "
+                 "distinct (zone, templates, line); non-trivial = accepted lines"),
+        "trusted_base": [KERNEL, EXTRACT, CORR, "lean/Model/Tables.lean: the self-readable table (specification)",
+                         "attribution of deviations to known findings is computed by the model (Driver/TypedCase.lean)"],
+        "assumptions": ["same time zone for both passes (the property's premise)", "string([]byte) is not self-readable (corrected table, DESIGN.md §13)"],
     },
 }
